@@ -1,6 +1,7 @@
 ------------------------------ MODULE MC_Glue ------------------------------
 EXTENDS Glue, Json
-ExportJson == Len(svc) > 0 => PrintT("SCHED " \o ToJson([methods |-> [i \in DOMAIN svc |-> [name |-> svc[i].name, raw |-> svc[i].name \in RawOnly,
-                         variant |-> Variant(svc[i]), nargs |-> svc[i].nargs, argty |-> svc[i].argty, ret |-> svc[i].ret]],
+(* a service all of whose rpcs are gated off is an empty service: not a shape of interest (rustc refuses the empty match) *)
+ExportJson == (Len(svc) > 0 /\ \E i \in DOMAIN svc : svc[i].gate # "off") => PrintT("SCHED " \o ToJson([methods |-> [i \in DOMAIN svc |-> [name |-> svc[i].name, raw |-> svc[i].name \in RawOnly,
+                         variant |-> Variant(svc[i]), nargs |-> svc[i].nargs, argty |-> svc[i].argty, ret |-> svc[i].ret, gate |-> svc[i].gate]],
                          attr |-> attr, accepted |-> Accepted]))
 =============================================================================
